@@ -164,7 +164,7 @@ def run_stream(spec, prop, schema):
     paths["git_styles"] = env.git_style_variants(os.path.join(scratch, "paths-%s" % spec.get("shard", 0)))
     os.chdir(scratch)
     r = random.Random(spec["seed"])
-    variants = ["full", "diffonly", "bare"]
+    variants = ["full", "diffonly", "bare", "spaced"]
     if "replay" in spec:
         c = spec["replay"]["case"]
         merge_case(col, paths, c.get("class", "replay"), c["base"], c["local"], c["remote"], c.get("info"), c["config"],
@@ -193,7 +193,7 @@ def run_stream(spec, prop, schema):
         if k % nsh != ish % nsh:
             continue
         cfg = allc[(k // nsh) % len(allc)]
-        merge_case(col, paths, "degenerate", b, l, rm, {}, cfg, variants[k % 3], schema, prop)
+        merge_case(col, paths, "degenerate", b, l, rm, {}, cfg, variants[k % len(variants)], schema, prop)
         col.count("degenerate_triples_enumerated")
     for k in range(spec["triples"]):
         gen = NBGen(r, exotic=(k % 5 == 0))
@@ -207,7 +207,7 @@ def run_stream(spec, prop, schema):
             cfgs = [(c, v) for c in allc for v in variants]        # all 282 x 3
             col.count("triples_under_all_282x3")
         else:
-            cfgs = [(c, variants[(k + j) % 3]) for j, c in enumerate(covering_configs(r, spec["cfgs"]))]
+            cfgs = [(c, variants[(k + j) % len(variants)]) for j, c in enumerate(covering_configs(r, spec["cfgs"]))]
         if cls == "long_notebook" and len(cfgs) > 3:
             cfgs = cfgs[:3]          # ~1 s per merge: three configurations per long notebook
         for cfg, variant in cfgs:
